@@ -17,6 +17,49 @@ LM = f"{A}.lmeasure.LMeasure"
 
 
 
+def _count_by_value(which: str, expr):
+    """fold an arithmetic expression over known counts on every small rooted tree; True = equal everywhere, (pid, got, want) = first difference, None = cannot fold"""
+    from ..objfold import small_trees
+
+    def counts(pid):
+        n = len(pid)
+        kids = [sum(1 for j in range(n) if pid[j] == i) for i in range(n)]
+        tips = sum(1 for k in kids if k == 0)
+        furc = sum(1 for k in kids if k > 1)
+        starts = {0} | {i for i in range(n) if kids[i] > 1}
+        branches = sum(kids[i] for i in starts)
+        return {"n_tips": tips, "n_bifs": furc, "n_branch": branches, "n_stems": kids[0], "nodes": n}
+
+    KNOWN = {"len(tree.get_tips())": "n_tips", "self.n_tips(tree)": "n_tips", "len(tree.get_furcations())": "n_bifs", "self.n_bifs(tree)": "n_bifs", "len(tree.get_bifurcations())": "n_bifs",
+             "len(tree.get_branches())": "n_branch", "self.n_branch(tree)": "n_branch", "len(tree.soma().children())": "n_stems", "self.n_stems(tree)": "n_stems",
+             "tree.number_of_nodes()": "nodes", "len(tree)": "nodes"}
+
+    def ev(e, c):
+        t = norm_src(e)
+        if t in KNOWN:
+            return c[KNOWN[t]]
+        if t == "tree.number_of_edges()":
+            return c["nodes"] - 1
+        if isinstance(e, ast.Constant) and isinstance(e.value, int) and not isinstance(e.value, bool):
+            return e.value
+        if isinstance(e, ast.BinOp) and isinstance(e.op, (ast.Add, ast.Sub, ast.Mult)):
+            a, b = ev(e.left, c), ev(e.right, c)
+            return a + b if isinstance(e.op, ast.Add) else (a - b if isinstance(e.op, ast.Sub) else a * b)
+        if isinstance(e, ast.Call) and isinstance(e.func, ast.Name) and e.func.id in ("int", "max") and e.args:
+            vals = [ev(a, c) for a in e.args]
+            return vals[0] if e.func.id == "int" else max(vals)
+        raise ValueError(t)
+    try:
+        for pid in small_trees(6):
+            c = counts(pid)
+            got = ev(expr, c)
+            if got != c[which]:
+                return (pid, got, c[which])
+    except ValueError:
+        return None
+    return True
+
+
 def sholl_chain_rule(ctx, col):
     repo = ctx.repo
     # --- chains through the sampling sphere, folded exactly: whatever the convention for a sample that lies exactly on the sphere, a neurite that passes
@@ -473,10 +516,22 @@ def definitions(ctx, col):
         (f"{A}.features._SubsetNodesFeatures.get_radial_distance", ["self._features.get_radial_distance()[self.nodes]"], "subset radial distance = the nodes' radial distances, selected"),
         (f"{A}.features.NodeFeatures.get_count", ["np.array([self.tree.number_of_nodes()], dtype=np.float32)"], "node count"),
     ]
+    col.rule("R-COUNTVAL", "the L-Measure counts written as arithmetic over other counts (n_branch = n_tips + n_bifs - 1, ...) are folded over all 154 rooted trees of up to six nodes "
+             "and compared with the count by definition (branches = sum over the root and the furcations of their numbers of children; a root with one child starts a branch, too)", floor=0)
     for qual, accepted, what in wiring:
         d = repo.get_def(qual)
         rets = [norm_src(r.value) for r in _ret(d)]
         rn = _ret(d)
+        if len(rn) == 1 and qual.rsplit(".", 1)[-1] in ("n_branch", "n_tips", "n_bifs", "n_stems") and norm_src(rn[0].value) not in accepted:
+            verdict = _count_by_value(qual.rsplit(".", 1)[-1], rn[0].value)
+            if verdict is not None and verdict is not True:
+                pid_, got_, want_ = verdict
+                col.bad("R-COUNTVAL", qual, d.loc(rn[0]), what, f"`{norm_src(rn[0].value)}` gives {got_} for the tree with parents {pid_}; by definition the count is {want_} "
+                        f"(a root with a single child starts a branch although it is neither a tip nor a furcation)", stmt="countval", definite=True)
+                continue
+            if verdict is True:
+                col.ok("R-COUNTVAL", qual, d.loc(rn[0]), what, f"`{norm_src(rn[0].value)}` equals the definition on all 154 witness trees", stmt="countval")
+                continue
         if len(rn) == 1:
             col.text(R_, qual, d.loc(rn[0]), what, rn[0].value, accepted, stmt="wire")
         else:
